@@ -108,6 +108,15 @@ def check1d(case):
     l2 = m.L2average(d)
     require(abs(l1 - float(np.sum(dxf * np.abs(d)) / np.sum(dxf))) <= 1e-13 * np.max(np.abs(d)) + 1e-300, "L1average", "L1 average is not volume weighted")
     require(abs(l2 - float(np.sqrt(np.sum(dxf * d * d) / np.sum(dxf)))) <= 1e-13 * np.max(np.abs(d)) + 1e-300, "L2average", "L2 average is not volume weighted")
+    # ... and after the mesh has served a discretisation and a short computation (n >= 2: periodic second-order convection, two rk2 steps with a monitor)
+    if 2 <= n <= 200:
+        model = cases.build_model(dict(name="convection", a=-1.3))
+        disc = cases.build_disc(model, m, dict(name="muscl", limiter="vanleer"), None, {"type": "per"}, {"type": "per"})
+        f0 = cases.build_field(model, m, [np.sin(1.0 + 2.3 * np.arange(n))])
+        disc.rhs(f0)
+        solver = cases.build_integrator("rk2", m, disc)
+        solver.solve(f0, 0.4, stop={"maxit": 2}, monitors={"data_average": {"data": "q", "frequency": 1}})
+        f0.average("q")
     # the queries are read-only: after averages (and a first round of every accessor) the mesh still answers the same, bit for bit
     for nm, before, now in (("xf", xf, m.xf), ("centers()", xc, m.centers()), ("xc", xc, m.xc), ("vol()", vol, m.vol()), ("dx()", vol, m.dx())):
         require(np.array_equal(np.asarray(now, dtype=float), before), "queries-read-only", "mesh.%s changed after average()/L1average()/L2average() were called (max change %r)"
@@ -203,7 +212,16 @@ def check2d(case):
         require(np.all(nrm[0] == outward[t][0]) and np.all(nrm[1] == outward[t][1]), "normal", "normal_of_bc(%s) is %r, outward unit normal is %r" % (t, nrm[:, 0].tolist(), outward[t]))
     require(len(set(allidx)) == len(allidx), "disjoint", "boundary face sets overlap")
     require(len(allidx) == 2 * nx + 2 * ny, "cover", "%d boundary faces indexed, %d expected" % (len(allidx), 2 * nx + 2 * ny))
-    # read-only queries: second reading after everything has been used once
+    # read-only queries: second reading after everything has been used once, incl. by a discretisation and a short computation
+    if nx * ny <= 100:
+        md2 = dict(name="euler2d", gamma=1.4)
+        model = cases.build_model(md2)
+        per = {"type": "per"}
+        disc = cases.build_disc2d(model, m, dict(name="extrapol2dk", k=1.0 / 3.0), "hlle", dict(left=per, right=per, bottom=per, top=per))
+        w = 1.0 + 0.1 * np.sin(1.0 + 2.3 * np.arange(nx * ny))
+        f0 = cases.build_field(model, m, cases.cons_from_prim(md2, [w, np.vstack([0.1 * w, -0.2 * w]), w]))
+        disc.rhs(f0)
+        cases.build_integrator("rk2", m, disc).solve(f0, 0.3, stop={"maxit": 1})
     x2, y2 = m.centers()
     require(np.array_equal(np.asarray(m.vol(), dtype=float), vol) and np.array_equal(np.asarray(x2, dtype=float), xx) and np.array_equal(np.asarray(y2, dtype=float), yy),
             "queries-read-only", "vol() / centers() changed after the mesh was queried")
